@@ -137,7 +137,8 @@ Definition naive_window (i : naive_in) : res Z :=
       if posint_ok (f_sp i) && posint_or_none_ok (f_wl i) then
         match f_wl i with
         | PInt w => if negb (as_int (f_sp i) 1 =? 1) && (w <? as_int (f_sp i) 1) then Err else Ok w
-        | _ => Ok n
+        | _ => (* default window = whole series: same rule, a series shorter than one season *)
+               if negb (as_int (f_sp i) 1 =? 1) && (n <? as_int (f_sp i) 1) then Err else Ok n
         end
       else Err
   | SDrift =>
@@ -145,7 +146,7 @@ Definition naive_window (i : naive_in) : res Z :=
         match f_wl i with
         | PInt 1 => Err
         | PInt w => Ok w
-        | _ => Ok n
+        | _ => if n =? 1 then Err else Ok n       (* no line through a single observation *)
         end
       else Err
   end.
